@@ -120,9 +120,24 @@ def run_schedule(scn_def, schedule, keep_log=False):
             sched.spawn(name, make_worker(name, calls))
         loop_events = []
         if loop is not None:
+            react = loop.get("react") or {}
+
             def loop_fn():
+                res = results.setdefault("loop", [])
                 for ev in gen:
                     loop_events.append(ev.name)
+                    if ev.name in react:
+                        # the application's handler on the event-loop thread reacts to the event
+                        call = list(react[ev.name])
+                        if call[0] in ("send_text", "send_binary") and hasattr(ev, "data"):
+                            call[1] = call[1] + ev.data.decode("latin-1")
+                        try:
+                            do_call(ws, call)
+                            res.append((call, "ok", None))
+                        except simnet.HarnessSignal:
+                            raise
+                        except Exception as error:
+                            res.append((call, type(error).__name__, [c.__name__ for c in type(error).__mro__]))
             sched.spawn("loop", loop_fn)
         sched.run()
         out.wire = b"".join(e[2] for e in sim.log[mark:] if e[0] == "send")
